@@ -21,6 +21,12 @@ func (g *gcHist) bumpWatermark() {
 		t := g.beginAt(false)
 		g.discardT(t)
 	}
+	// the watermark is advanced by a goroutine: wait until it has caught up (no label: the
+	// discard timestamp is observed at each compaction)
+	want := g.db.VerifNextTs() - 1
+	for i := 0; i < 2000 && !g.o.Managed && g.db.VerifDiscardTs() < want; i++ {
+		time.Sleep(time.Millisecond)
+	}
 }
 
 // readCheck: the current value of k must be `want` (nil = not found); failure carries `sig`
